@@ -1,5 +1,6 @@
 import Yaql.Drv.Util
 import Yaql.Model.Convert
+import Yaql.Model.HostHistory
 /-! Driver for C10 (and the finaliser part of C08): runs `convIn` / `convOut` of the model.
 Codec of `Yaql.Convert.Py`: scalars as in harness/values.py (null | bool | {"i"} | {"f"} | {"s"} | {"h"}),
 `{"q": kind, "l": [..]}` element containers, `{"m": kind, "l": [[k, v], ..]}` pair containers. -/
@@ -66,7 +67,30 @@ def one (c : Json) : Json :=
   | "hash" => jo [("ok", jb (hashable v))]
   | op => jerr ("bad op " ++ op)
 
+/-! host histories (`Model/HostHistory.lean`): `{"d0": doc, "ops": [{"o": "mutate" | "replace", "v": doc} |
+    {"o": "evaluate", "ci", "t2l", "s2l"} | {"o": "bind"} | {"o": "evalBound", "i", "t2l", "s2l"}]}` -> one output per
+    operation (`null` where nothing is returned) -/
+open Yaql.HostHistory in
+def histOp (j : Json) : Op :=
+  let o : Opts := { t2l := jbool j "t2l", s2l := jbool j "s2l" }
+  match jstr j "o" with
+  | "mutate" => .mutate (pyOfJson (jget j "v"))
+  | "replace" => .replace (pyOfJson (jget j "v"))
+  | "evaluate" => .evaluate (jbool j "ci") o
+  | "bind" => .bind
+  | _ => .evalBound (jnat j "i") o
+
+open Yaql.HostHistory in
+def hist (c : Json) : Json :=
+  let ops := (jarr c "ops").map histOp
+  let outs := if jbool c "memo" then runMemo ⟨{ doc := pyOfJson (jget c "d0") }, none⟩ ops
+              else run { doc := pyOfJson (jget c "d0") } ops
+  jl (outs.map fun
+    | none => Json.null
+    | some r => resJ r)
+
 def handle (req : Json) : Json :=
-  jo [("res", jl ((jarr req "cases").map one))]
+  if jhas req "hist" then jo [("res", jl ((jarr req "hist").map hist))]
+  else jo [("res", jl ((jarr req "cases").map one))]
 
 end Yaql.Drv.C10
